@@ -39,8 +39,9 @@ DomainRuleSets == { {}, {EX}, {<<"dot">> \o EX}, {<<"star", "dot">> \o EX}, {<<"
 F(on, es) == [on |-> on, entries |-> es]
 NoFile == F(FALSE, {})
 Files == { NoFile, F(TRUE, {}), F(TRUE, {<<"alice", "at">> \o EX}), F(TRUE, {<<"Bob", "at", "Other", "dot", "org">>}) }
-GroupLists    == { <<>>, <<"g1">>, <<"g1", "g2">>, <<"g3">>, <<"nil", "g3">> }
-AllowedGroups == { {}, {"g1"}, {"g2", "g4"}, {"g4"} }
+\* "c1,c2" is ONE group whose name contains a comma (a distinguished name, say): it is neither "c1" nor "c2"
+GroupLists    == { <<>>, <<"g1">>, <<"g1", "g2">>, <<"g3">>, <<"nil", "g3">>, <<"c1">>, <<"c1,c2">> }
+AllowedGroups == { {}, {"g1"}, {"g2", "g4"}, {"g4"}, {"c1,c2"} }
 
 \* ---- requirement -------------------------------------------------------------------------
 DomainOf(e) == Drop(e, LastIndexOf(e, "at"))
